@@ -277,6 +277,7 @@ func runRaceChild(op string) string {
 			ip := env.IPs[rr.Intn(len(env.IPs))]
 			node := env.Cluster.Node(ip)
 			k++
+			_ = env.Proxy.OutageDuration() // what the readiness probe asks, from its own goroutine
 			switch x := rr.Intn(10); {
 			case x < 2 && fams["loss"]:
 				node.DropConns(nil)
